@@ -955,6 +955,34 @@ qs_spec("handle_quic_packet", [], QS_ALL_EXT + ["tls_init"],
         calls={"PseudoVersionNegotiationFrame": dict(lean="QS.vnFrame", params=["payload", "src_packet"], args=["Bytes", PKT], ret=OUT)},
         state_calls={"self.decrypt_packet": dict(kind="shared", lean="QS.decrypt_packet", exts=QS_ALL_EXT, args=[PKT], ret="None"),
                      "self.handle_frame": dict(kind="shared", lean="QS.handle_frame", exts=["handle_crypto_frame"], args=[OUT], ret="None")})
+# handle_crypto_frame: the QuicTlsSession object is the opaque σ (`update_session`, its attributes and the reset of `new_data` are
+# externals); `self.alpn` / `self.greasy_bit` are outside the model.
+QSV = "TLX.Quic.Session.Version"
+QS_EXT.update({"tls_update": ("tls_update", f"σ → {OUT} → PyRt.Res σ Unit"), "tls_new_data": ("tls_new_data", "σ → Bool"),
+               "tls_client_random": ("tls_client_random", "σ → Option Bytes"), "tls_ciphersuite": ("tls_ciphersuite", "σ → Option Bytes"),
+               "tls_clear_new_data": ("tls_clear_new_data", "σ → σ"),
+               "set_tls_decryptors": ("set_tls_decryptors", f"{QS_ST} → Option Bytes → Option Bytes → {QS_RES} Unit"),
+               "set_initial_decryptor": ("set_initial_decryptor", f"{QS_ST} → Bytes → Bool → {QS_RES} Unit"),
+               "packet_isserver": ("packet_isserver", f"{QS_ST} → PacketObj → Bytes → {QS_RES} Bool")})
+qs_spec("handle_crypto_frame", [("frame", OUT)],
+        ["tls_update", "tls_new_data", "tls_client_random", "tls_ciphersuite", "tls_clear_new_data", "set_tls_decryptors"],
+        places=QS_PLACES + [("self.tls_session", "tls", "σ", "s")],
+        attr_funcs={**QS_ATTRS, ("σ", "new_data"): ("tls_new_data", "Bool"), ("σ", "client_random"): ("tls_client_random", "Option Bytes"),
+                    ("σ", "ciphersuite"): ("tls_ciphersuite", "Option Bytes")},
+        stmt_updates={"self.alpn = self.tls_session.alpn": "", "self.greasy_bit = self.tls_session.greasy_bit": "",
+                      "self.tls_session.new_data = False": "tls := tls_clear_new_data {st}.tls"},
+        state_calls={"self.tls_session.update_session": dict(kind="method", recv="self.tls_session", lean="tls_update", args=[OUT], ret="None"),
+                     "self.set_tls_decryptors": dict(kind="extshared", lean="set_tls_decryptors", args=["Option Bytes", "Option Bytes"], ret="None")})
+# handle_packet up to its loop: the version latch, the Initial decryptor from the routing DCID, the direction of the datagram
+qs_spec("handle_packet", [("packet", "PacketObj"), ("dcid", "Bytes"), ("quic_version", QSV)], ["set_initial_decryptor", "packet_isserver"],
+        name="handle_packet_pre", tparams=["σ", "PacketObj"],
+        select={"start": "if self.quic_version == QuicVersion.UNKNOWN:", "end": "isserver = self.packet_isserver(packet, dcid)"},
+        outs=[("isserver", "Bool")],
+        places=QS_PLACES + [("self.quic_version", "version", QSV, "s")],
+        consts={**PTYPE, "QuicVersion.UNKNOWN": (f"{QSV}.unknown", QSV),
+                "'Initial' not in list(self.decryptors.keys())": ("(Option.isNone {st}.decInitial)", "Bool")},
+        state_calls={"self.set_initial_decryptor": dict(kind="extshared", lean="set_initial_decryptor", args=["Bytes", "Bool"], ret="None"),
+                     "self.packet_isserver": dict(kind="extshared", lean="packet_isserver", args=["PacketObj", "Bytes"], ret="Bool")})
 
 THEOREMS = _uniq(theorem_of(s) for s in SPECS)
 
